@@ -1,6 +1,7 @@
 import ClusterVerif.Model.C16
 import ClusterVerif.Model.C16Aux
 import ClusterVerif.Model.C16Ctx
+import ClusterVerif.Model.C16Req
 /-!
 # C16 — the property, clause by clause, over what a run *shows*
 
